@@ -167,6 +167,31 @@ Definition line_es (id : Z) (es : list cand) (tolt : option float) (tolu : optio
      | _ => unspecified
      end).
 
+(* ---- sequences: several queries processed one after the other by ONE plugin instance.  The plugins are
+        stateless, so model and specification judge every query on its own (history-free); the payload is
+        the per-query payloads joined by " | ".  One unspecified element makes the S line unspecified. ---- *)
+Definition line_payload (l : string) : string := snd (split_space (snd (split_space l))).
+Definition seq_line (tag : string) (id : Z) (parts : list string) : string :=
+  line tag id (if existsb (String.eqb unspecified) parts then unspecified else join " | " parts).
+
+Definition vstep := ((gctable * bool) * json)%type.                       (* oracle table, by-distance, query *)
+Definition line_vm_seq (id : Z) (vs : list cand) (tolt : option float) (tolu : option dist_unit)
+                       (steps : list vstep) : string :=
+  seq_line "M" id (map (fun st => line_payload (line_vm id vs tolt tolu (fst (fst st)) (snd (fst st)) (snd st))) steps).
+Definition line_vs_seq (id : Z) (vs : list cand) (tolt : option float) (tolu : option dist_unit)
+                       (steps : list vstep) : string :=
+  seq_line "S" id (map (fun st => line_payload (line_vs id vs tolt tolu (fst (fst st)) (snd (fst st)) (snd st))) steps).
+
+Definition estep := (((gctable * truck_table) * bool) * json)%type.       (* oracle, vehicle verdicts, by-distance, query *)
+Definition line_em_seq (id : Z) (es : list cand) (tolt : option float) (tolu : option dist_unit)
+                       (mapping : list (string * Z)) (lookup : option (list Z)) (steps : list estep) : string :=
+  seq_line "M" id (map (fun st => line_payload (line_em id es tolt tolu (fst (fst (fst st))) mapping lookup
+                                                          (snd (fst (fst st))) (snd (fst st)) (snd st))) steps).
+Definition line_es_seq (id : Z) (es : list cand) (tolt : option float) (tolu : option dist_unit)
+                       (mapping : list (string * Z)) (lookup : option (list Z)) (steps : list estep) : string :=
+  seq_line "S" id (map (fun st => line_payload (line_es id es tolt tolu (fst (fst (fst st))) mapping lookup
+                                                          (snd (fst (fst st))) (snd (fst st)) (snd st))) steps).
+
 (* convenience for the case files *)
 Definition C (i : Z) (x y : Q) : cand := mkCand i (x, y).
 End MMRun.
